@@ -23,17 +23,17 @@ P = {
  "C09": ("exploration", "rapid stateful (model-based) PBT: straight-line programs built one action per step, every variable and $ dumped after each step, differential against a reference location model; plus a model-free metamorphic check (read-only programs leave the document unchanged)",
    "6k (120k thorough) histories of up to 15 (40) actions over variables, unset names and $-paths: stores through chains of depth 1-4 with every index class, op=, ++/--, aliasing, stores through parameters and for-in variables, reads of missing paths; all variables and the document are compared with refjq after every action and GetRootJson at the end. 6k (120k) read-only programs must leave the document bit-for-bit equal. Exploration (stateful model-based).",
    "Trusted: refjq's location model (DESIGN.md 4.3). Open finding KF-array-alias (array length per copy) is excluded dynamically: actions that change the length of an array held in two places are dropped at generation time and counted.", "5/C09, 4.3"),
- "C10": ("exploration", "rapid PBT, metamorphic over run histories: sessions of interleaved repeated runs (A B A C B A ...) in one process, plus fresh-process repeats through the binary; every execution of the same (program, selectors, input) must be byte-identical in stdout, JSON output and error",
+ "C10": ("exploration", "rapid PBT, metamorphic over run histories: sessions of interleaved repeated runs (A B A C B A ...) in one process, plus fresh-process repeats through the binary that must also agree with the run inside the long-lived process; every execution of the same (program, selectors, input) must be byte-identical in stdout, JSON output and error",
    "2.5k (60k thorough) sessions of 2-4 triples x 8 executions each: objects with 2-12 keys printed / iterated / formatted from every source, method lookups of every prototype, 'intruder' programs that assign to method names and builtins, and programs from five other generators including failing ones. Exploration (metamorphic: repeat / interleave).",
    "Probabilistic for randomised orders (<= 3^-7 per case with >= 3 keys); state leaking between runs is only found if some generated program observes it.", "5/C10"),
  "C11": ("fault_enumeration", "rapid PBT with fault injection: (a) syntax-error splices at generated positions with a model-free oracle (SyntaxError, no output); (b) 23 runtime fault kits injected into syntactic slots chosen uniformly over 29 slot kinds, differential against a reference model that decides whether the slot is reached",
-   "(a) 6k (200k thorough) splices of 9 recipe families into valid tracing programs at any token boundary / statement start; (b) 12k (300k) faulted programs: if refjq reaches the kit the run must be a RuntimeError with exactly the prior output, if the slot is dead the program must behave as without the fault; the evidence lists the kit x slot-kind matrix. Fault enumeration: every fault kind at every syntactic slot kind, over generated surrounding programs.",
+   "(a) 6k (200k thorough) splices of 11 recipe families (incl. loop control in loop headers, for-in without in, compound / unary / ++ assignment to non-assignable targets) into valid tracing programs at any token boundary / statement start; (b) 12k (300k) faulted programs: if refjq reaches the kit the run must be a RuntimeError with exactly the prior output, if the slot is dead the program must behave as without the fault; the evidence lists the kit x slot-kind matrix. Fault enumeration: every fault kind at every syntactic slot kind, over generated surrounding programs.",
    "Trusted: refjq for reachability and prior output; every kit is a runtime error by the documents. A stray comma on a line of its own after a print statement is legal by the grammar (it continues the print list) and is not used.", "5/C11"),
  "C13": ("exploration", "rapid PBT, metamorphic: random legal layouts (spacing, tabs, CR, newlines, comments, ';' vs newline, quote style) of one token sequence must behave like the canonical layout; differential against refjq for what literals denote",
    "8k (200k thorough) programs - a lexical family (odd number spellings glued to operators, keyword-like identifiers, strings over all bytes, valid and invalid escapes in live and dead positions, bare print before further statements) plus the control-flow, call, match, value and printf generators - each laid out 4 (8) random ways under the property's own exceptions; stdout and outcome class must equal the canonical layout's. Exploration (metamorphic).",
    "Trusted: the renderer's gluing rules (two tokens may touch unless they would fuse) and the property's list of places where a newline is significant. Error messages and positions are not compared (C12).", "5/C13"),
  "C14": ("exploration", "rapid PBT over command-line configurations materialised in private directories: differential (binary vs library interpreter) plus metamorphic relations between configurations (-f vs inline, stdin vs file, -o FILE vs -o -, -r E vs BEGINFILE { $ = E })",
-   "500 (30k thorough) configurations x 3-6 subprocesses each: program inline / -f, stdin / 1-3 files / missing file / directory, 0-2 selectors, -o absent / - / path / unwritable path, programs from four generators including failing ones. Exploration (differential CLI vs library + metamorphic).",
+   "500 (30k thorough) configurations x 3-6 subprocesses each: program inline / -f, stdin / 1-3 files / missing file / directory, 0-2 selectors, -o absent / - / path / unwritable path, programs from four generators including failing ones, and degenerate program texts (empty, blank, comment only). Exploration (differential CLI vs library + metamorphic).",
    "Trusted: lang.EvalProgram + GetRootJson as the reference for the binary. A watchdog kill (20 s) is inconclusive and dropped.", "5/C14"),
  "C15": ("exploration", "rapid stateful (model-based) PBT: one list operation per step on five arrays, results and all contents printed after every step, differential against a reference list model",
    "6k (120k thorough) histories of up to 20 (60) operations - push, pop, popfirst, index read/write with every index class, length, contains, sort, and method calls nested in each other's arguments - on arrays held by variables, by the document and by an object; after every step the result and every array with its length are compared with refjq's ideal list, and the final document with the reference root. Exploration (stateful model-based).",
@@ -57,7 +57,7 @@ P = {
    "10k (300k thorough) documents with random spelling (whitespace, escapes, number forms, duplicate keys, forced empty containers) through 8 non-modifying programs and 0-1 selector, a sample through the binary with -o - and -o FILE; 6k (150k) program-built values (auto-created, plucked, shared, cyclic of every shape, regex) through json() and as the root for -o; non-finite numbers. Exploration (round trip).",
    "Trusted: package jsonx (strict RFC 8259 recogniser, order-free equality, exact decimal -> double), refjq for the value a program builds. Strings are valid UTF-8 (JSON cannot carry other bytes).", "5/C04"),
  "C12": ("exploration", "rapid PBT: single-line faults (illegal characters incl. multi-byte, stray tokens, out-of-context keywords, invalid assignment targets, 23 runtime kits) inserted at recorded byte spans into multi-line programs with blank lines, comments, CRLF, tabs and non-ASCII text; validity predicate over the reported Line / Col / SrcLine",
-   "15k (400k thorough) programs of up to 60 lines; the reported line must be the fault's line, SrcLine exactly that line of the text, and the byte column inside the inserted construct (exactly on a single-byte illegal character); every error also satisfies Line >= 1 and SrcLine == line Line; 150 (3000) cases compare the binary's three stderr lines. Exploration.",
+   "15k (400k thorough) programs of up to 60 lines; the reported line must be the fault's line, SrcLine exactly that line of the text, and the byte column inside the inserted construct (exactly on a single-byte illegal character); faults also sit on an inner line of a multi-line construct, in an unterminated literal at the end, or are an early end of the program; the program is preceded / followed by blank lines, indentation and comments; every error also satisfies Line >= 1, SrcLine == line Line and 0 <= Col <= len(SrcLine); 300 (8000) cases compare the binary's three stderr lines for the program given with -f. Exploration.",
    "Trusted: the renderer's recorded token offsets. For a multi-byte illegal character any byte of it is accepted as the column.", "5/C12"),
  "C20": ("exploration", "boundary-value enumeration: ladders of magnitudes around each limit, every rung run through the binary in an isolated subprocess (rusage, memory cap), validity predicate over (exit status, stdout, stderr, peak RSS), monotonicity along each ladder; rapid PBT of random points around the switch points in-process",
    "About 460 rungs in the quick tier (more shapes and depths in thorough): 10 recursion shapes x depths 1...10^5, 6 array-index shapes x indices 0.5...10^18 and 1e300, printf widths +-1...10^12 x 3 directives, input nesting 100...10^5 (10^6) x 3 shapes; plus 300 (20k) random in-process points that must agree with the switch point found by bisection. Exploration (boundary-value enumeration).",
